@@ -241,6 +241,42 @@ def scale_oracle(R, pr, n):
     return bad
 
 
+def location_probe(R, inv):
+    """two events, two location samples, no relative data: are the events independent?"""
+    P = [np.array([[0.2, 0.5], [0.7, 0.1]]), np.array([[0.3, 0.3], [0.4, 0.9]])]      # P[event][location sample, tensor sample]
+
+    class StubForward(object):
+        def __init__(self, mt, a_polarity, error_polarity, *a, **k):
+            self.code = int(np.asarray(error_polarity).flatten()[0])
+
+        def __call__(self):
+            return {'ln_pdf': np.matrix(np.log(P[self.code])), 'n': 2}
+    real = inv.ForwardTask
+    inv.ForwardTask = StubForward
+    try:
+        mts = [np.matrix(np.ones((6, 2))) for _ in range(2)]
+        with contextlib.redirect_stdout(io.StringIO()):
+            t = inv.MultipleEventsForwardTask(mts, [False] * 2, [np.array([0]), np.array([1])], [False] * 2, [False] * 2, [False] * 2, [False] * 2,
+                                              [False] * 2, [False] * 2, [False] * 2, [], [], [], [], location_sample_multipliers=[1, 1],
+                                              return_zero=True, relative=False, combine=True, location_sample_size=2)
+            r = t()
+    finally:
+        inv.ForwardTask = real
+    ln = r['ln_pdf']
+    ln = ln._ln_pdf if hasattr(ln, '_ln_pdf') else ln
+    got = np.exp(np.asarray(ln, dtype=float)).flatten()
+    indep = P[0].sum(axis=0) * P[1].sum(axis=0)
+    tied = (P[0] * P[1]).sum(axis=0)
+    R.count(('location-probe',))
+    if np.allclose(got, indep, rtol=1e-12):
+        return None
+    rec = {'check': 'location-samples-independence', 'per_event_likelihoods': [p.tolist() for p in P], 'joint': got.tolist(),
+           'product_of_event_marginals': indep.tolist(), 'marginal_of_products': tied.tolist()}
+    if np.allclose(got, tied, rtol=1e-12):
+        rec['tied'] = True
+    return rec
+
+
 def run(R):
     inv, pr = _impl()
     proved = R.prove(extra_targets=['Model/Joint.v'])
@@ -252,6 +288,13 @@ def run(R):
     jfail, jbad = joint_run(R, inv, R.n(300, 6000))
     cfail = combine_run(R, pr, R.n(400, 8000))
     sbad = scale_oracle(R, pr, R.n(60, 1500))
+    lrec = location_probe(R, inv)
+    if lrec is not None:
+        if not (lrec.get('tied') and R.known_finding('location_samples_tie_events',
+                'with several location samples and no relative data the joint value is the marginal over a SHARED location index of the '
+                'product of the events (sum_k prod_i p_ik = %r) instead of the product of the events\' own marginals (%r)'
+                % (lrec['marginal_of_products'], lrec['product_of_event_marginals']))):
+            R.violation('events are not independent without relative data when several location samples are used', lrec)
     if jbad:
         key = 'intersection_rows_misaligned' if jbad['check'] == 'pair-term-on-misaligned-rows' else None
         if not (key and R.known_finding(key, 'relative-amplitude term evaluated on rows of different stations when two events list their '
